@@ -238,53 +238,56 @@ Proof.
   rewrite Z.pow_succ_r by lia. lia.
 Qed.
 
-(** The new allocation is a power of two, at least 1 KiB, strictly larger than both the old capacity
-    and the requirement, and less than twice the largest of those. *)
+(** the only facts about the generated constant that the proofs use *)
+Lemma init_alloc_bounds : 32 < INITIAL_ALLOCATION <= 4294967296.
+Proof. unfold INITIAL_ALLOCATION. lia. Qed.
+
+(** The new allocation is a power of two, at least INITIAL_ALLOCATION, strictly larger than both the old
+    capacity and the requirement, and at most twice the largest of those. *)
 Lemma expand_size_some cap req2 s : 0 <= cap -> 0 <= req2 -> expand_size cap req2 = Some s ->
-  exists j, 10 <= j /\ s = 2 ^ j /\ cap < s /\ req2 < s /\ s <= Z.max 1024 (2 * Z.max cap req2) /\ s < W64.
+  exists j, 0 <= j /\ s = 2 ^ j /\ INITIAL_ALLOCATION <= s /\ cap < s /\ req2 < s /\
+    s <= Z.max (2 * INITIAL_ALLOCATION) (2 * Z.max cap req2) /\ s < W64.
 Proof.
   intros Hc Hr. unfold expand_size, cadd64, next_pow2_64, obind.
+  pose proof init_alloc_bounds as HI.
   destruct (_ <? _) eqn:E1; [|discriminate].
-  change INITIAL_ALLOCATION with 1024.
-  set (n := Z.max (Z.max cap req2 + 1) 1024).
+  set (n := Z.max (Z.max cap req2 + 1) INITIAL_ALLOCATION).
   replace (n <=? 1) with false by (symmetry; apply Z.leb_gt; lia).
   destruct (2 ^ Z.log2_up n <? _) eqn:E2; [|discriminate].
   intros H. injection H as <-. apply Z.ltb_lt in E2.
   pose proof (log2_up_pow2_bounds n ltac:(lia)) as [Hlo Hhi].
-  exists (Z.log2_up n). split.
-  { change 10 with (Z.log2_up 1024). apply Z.log2_up_le_mono. lia. }
-  split; [reflexivity|]. split; [lia|]. split; [lia|]. split; [|exact E2].
-  (* minimality: n <= 2^j0 where 2^j0 is the smaller candidate *)
-  destruct (Z_le_gt_dec n 1024) as [Hn|Hn].
-  - assert (n = 1024) as -> by lia. change (2 ^ Z.log2_up 1024) with 1024. lia.
+  exists (Z.log2_up n). split; [apply Z.log2_up_nonneg|].
+  split; [reflexivity|]. split; [lia|]. split; [lia|]. split; [lia|]. split; [|exact E2].
+  destruct (Z_le_gt_dec n INITIAL_ALLOCATION) as [Hn|Hn].
+  - assert (n = INITIAL_ALLOCATION) by lia. lia.
   - assert (n = Z.max cap req2 + 1) by lia.
     pose proof (Z.log2_up_spec n ltac:(lia)) as [Hlo' _].
-    (* 2^(pred j) < n = m+1  ->  2^(pred j) <= m  ->  2^j <= 2m *)
     assert (0 < Z.log2_up n) by (apply Z.log2_up_pos; lia).
     replace (Z.log2_up n) with (Z.succ (Z.pred (Z.log2_up n))) at 1 by lia.
     rewrite Z.pow_succ_r by lia. lia.
 Qed.
 
-Lemma expand_size_total cap req2 : 0 <= cap -> 0 <= req2 -> 2 * Z.max 1024 (Z.max cap req2) < W64 ->
+Lemma expand_size_total cap req2 : 0 <= cap -> 0 <= req2 ->
+  2 * Z.max INITIAL_ALLOCATION (Z.max cap req2) < W64 ->
   exists s, expand_size cap req2 = Some s.
 Proof.
   intros Hc Hr Hb. unfold expand_size, cadd64, next_pow2_64, obind.
+  pose proof init_alloc_bounds as HI.
   change 18446744073709551616 with W64.
   replace (Z.max cap req2 + 1 <? W64) with true by (symmetry; apply Z.ltb_lt; lia).
-  change INITIAL_ALLOCATION with 1024.
-  set (n := Z.max (Z.max cap req2 + 1) 1024).
+  set (n := Z.max (Z.max cap req2 + 1) INITIAL_ALLOCATION).
   replace (n <=? 1) with false by (symmetry; apply Z.leb_gt; lia).
   pose proof (log2_up_pow2_bounds n ltac:(lia)) as [Hlo Hhi].
-  destruct (Z_le_gt_dec n 1024) as [Hn|Hn].
-  - assert (n = 1024) as -> by lia. change (2 ^ Z.log2_up 1024) with 1024.
-    replace (1024 <? W64) with true by reflexivity. eauto.
-  - assert (n = Z.max cap req2 + 1) by lia.
-    pose proof (Z.log2_up_spec n ltac:(lia)) as [Hlo' _].
-    assert (0 < Z.log2_up n) by (apply Z.log2_up_pos; lia).
-    assert (2 ^ Z.log2_up n <= 2 * Z.max cap req2).
-    { replace (Z.log2_up n) with (Z.succ (Z.pred (Z.log2_up n))) at 1 by lia.
+  assert (2 ^ Z.log2_up n < W64).
+  { destruct (Z_le_gt_dec n INITIAL_ALLOCATION) as [Hn|Hn].
+    - assert (n = INITIAL_ALLOCATION) by lia. lia.
+    - assert (n = Z.max cap req2 + 1) by lia.
+      pose proof (Z.log2_up_spec n ltac:(lia)) as [Hlo' _].
+      assert (0 < Z.log2_up n) by (apply Z.log2_up_pos; lia).
+      assert (2 ^ Z.log2_up n <= 2 * Z.max cap req2); [|lia].
+      replace (Z.log2_up n) with (Z.succ (Z.pred (Z.log2_up n))) at 1 by lia.
       rewrite Z.pow_succ_r by lia. lia. }
-    replace (2 ^ Z.log2_up n <? W64) with true by (symmetry; apply Z.ltb_lt; lia). eauto.
+  replace (2 ^ Z.log2_up n <? W64) with true by (symmetry; apply Z.ltb_lt; lia). eauto.
 Qed.
 
 (** the chain item: the generated constant and requirement *)
